@@ -4,6 +4,8 @@ package progs
 import (
 	"fmt"
 
+	"google.golang.org/protobuf/proto"
+
 	pbsubstreams "github.com/streamingfast/substreams/pb/sf/substreams/v1"
 
 	"verifharness/modgen"
@@ -19,7 +21,13 @@ type Prog struct {
 
 func mk(name string, bodies map[string]*Body, output string, mods ...*pbsubstreams.Module) *Prog {
 	p := &Program{Modules: bodies, Salt: name}
-	return &Prog{Name: name, Modules: modgen.Modules(p.Marshal(), mods...), Output: output}
+	out := &Prog{Name: name, Modules: modgen.Modules(p.Marshal(), mods...), Output: output}
+	for _, m := range mods {
+		if m.GetKindMap() != nil && m.Name != output {
+			out.Outputs = append(out.Outputs, m.Name)
+		}
+	}
+	return out
 }
 
 const (
@@ -116,7 +124,7 @@ func ClockSparse(init uint64) *Prog {
 // MapOnly: no store at all.
 func MapOnly(init uint64) *Prog {
 	return mk(fmt.Sprintf("maponly-%d", init), map[string]*Body{
-		"m":  {Emit: Cat(Lit("blk"), Num(), Lit("/"), ID())},
+		"m": {Emit: Cat(Lit("blk"), Num(), Lit("/"), ID())},
 	}, "m",
 		modgen.Map("m", init, modgen.Src()),
 	)
@@ -152,4 +160,59 @@ func WithFailAt(p *Prog, mod string, n uint64) *Prog {
 	mods := make([]*pbsubstreams.Module, len(p.Modules.Modules))
 	copy(mods, p.Modules.Modules)
 	return &Prog{Name: fmt.Sprintf("%s+fail(%s@%d)", p.Name, mod, n), Modules: modgen.Modules(prog.Marshal(), mods...), Output: p.Output}
+}
+
+// Mutant: one-field mutations of the first store module of p (its body, or its initial block). Everything else,
+// including module names, is unchanged: only the hash may tell the mutant's cache files from the original's.
+func Mutant(p *Prog, kind string) *Prog {
+	prog, err := Parse(p.Modules.Binaries[0].Content)
+	if err != nil {
+		panic(err)
+	}
+	mods := make([]*pbsubstreams.Module, len(p.Modules.Modules))
+	for i, m := range p.Modules.Modules {
+		mods[i] = proto.Clone(m).(*pbsubstreams.Module)
+	}
+	var first *pbsubstreams.Module
+	for _, m := range mods {
+		if m.GetKindStore() != nil {
+			first = m
+			break
+		}
+	}
+	if first == nil {
+		first = mods[0]
+	}
+	switch kind {
+	case "store-body":
+		b := prog.Modules[first.BinaryEntrypoint]
+		if b != nil && len(b.Ops) > 0 {
+			b.Ops = append([]OpT{{T: "w", Key: Lit("total"), Val: Lit("1000"), Ord: 0}, {T: "w", Key: Lit("a0"), Val: Lit("MUTANT"), Ord: 9}, {T: "w", Key: Lit("max"), Val: Lit("99"), Ord: 0}, {T: "w", Key: Lit("cnt"), Val: Lit("50"), Ord: 0}, {T: "w", Key: Lit("k"), Val: Lit("-7"), Ord: 0}, {T: "w", Key: Lit("n"), Val: Lit("100"), Ord: 0}}, b.Ops...)
+		} else if b != nil {
+			b.Emit = Cat(Lit("MUTANT"), b.Emit)
+		}
+	case "store-init":
+		first.InitialBlock++
+	}
+	return &Prog{Name: p.Name + "~" + kind, Modules: modgen.Modules(prog.Marshal(), mods...), Output: p.Output}
+}
+
+// ClockSparse2: like ClockSparse but the clock-driven modules sit in the same stage as the sparse mapper: the
+// clock store also reads the params-only map, so it is layered after the maps; a second output map has no store.
+func ClockSparse2(init uint64) *Prog {
+	return mk(fmt.Sprintf("clocksparse2-%d", init), map[string]*Body{
+		"sp":     {SkipEmpty: true, Emit: Expr{"when", []any(Every(4, 1)), []any(Cat(Lit("sp@"), Num()))}},
+		"pm":     {Emit: Cat(Lit("p="), Expr{"params"}, Lit("@"), Num())},
+		"sfeed":  {Ops: []OpT{{T: "w", Key: Lit("n"), Val: Lit("1"), Ord: 0}}},
+		"sclock": {Ops: []OpT{{T: "w", Key: Lit("ticks"), Val: Lit("1"), Ord: 0}}},
+		"mc":     {Emit: Cat(Lit("mc@"), Num(), Lit(" pm="), In("pm"), Lit(" sp="), In("sp"))},
+		"m":      {Emit: Cat(Num(), Lit(" n="), Get(0, "last", Lit("n"), 0), Lit(" ticks="), Get(1, "last", Lit("ticks"), 0), Lit(" pm="), In("pm"))},
+	}, "m",
+		modgen.Map("sp", init, modgen.Src()),
+		modgen.Map("pm", init, modgen.Params("hello")),
+		modgen.Store("sfeed", init, pAdd, "int64", modgen.MapIn("sp")),
+		modgen.Store("sclock", init, pAdd, "int64", modgen.Clock(), modgen.MapIn("pm")),
+		modgen.Map("mc", init, modgen.Clock(), modgen.MapIn("pm"), modgen.MapIn("sp")),
+		modgen.Map("m", init, modgen.Clock(), modgen.StoreIn("sfeed", false), modgen.StoreIn("sclock", false), modgen.MapIn("pm")),
+	)
 }
